@@ -376,7 +376,20 @@ func genSpec(r *simk.Rand, i, np int, focus, algo string) BSpec {
 	// unknown blocks (delivered bundles only: a local application has no reason to add them)
 	if !sp.local() && r.Bool(pUnk) {
 		flags := uint64(r.Pick(0, 0x01, blockFlagReport, blockFlagDeleteBundle, blockFlagRemoveBlock, blockFlagRemoveBlock|blockFlagReport))
+		if focus == "C06" && r.Bool(0.4) {
+			flags = uint64(r.Pick(blockFlagRemoveBlock, blockFlagRemoveBlock|blockFlagReport))
+		}
 		sp.Unknown = append(sp.Unknown, UBlock{Type: uint64(r.Pick(61, 200, 250)), Flags: flags, Len: r.Pick(0, 3, 40)})
+		// sometimes several unknown blocks in a row (distinct types; mostly 'remove' / 'keep' mixes)
+		ru := simk.NewRand(uint64(r.Intn(1<<30)), "more-unknown")
+		pMore := 0.4
+		if focus == "C06" {
+			pMore = 0.7
+		}
+		for k, types := 0, []uint64{201, 62, 251}; k < 3 && ru.Bool(pMore); k++ {
+			f2 := uint64(ru.Pick(0, blockFlagRemoveBlock, blockFlagRemoveBlock, blockFlagRemoveBlock|blockFlagReport, blockFlagReport, 0x01))
+			sp.Unknown = append(sp.Unknown, UBlock{Type: types[k], Flags: f2, Len: ru.Pick(0, 3, 40)})
+		}
 	}
 	sp.CRC = r.Pick(0, 1, 2, 2)
 	// status report requests
